@@ -104,7 +104,7 @@ fn gen_abstract_heavy(src: &mut Src) -> rawlib::RLib {
 
 // Each conversion: description (choices) -> (transcript, number of keys in the largest unordered map on the path)
 fn conv_raw_to_gds(src: &mut Src) -> Result<(String, usize), String> {
-    let m = if src.bool() { gen_abstract_heavy(src) } else { rawlib::gen_rawlib(src, &RawGenOpts { abstracts: false, pico: true, annotations: false, nets_need_label_purpose: true, nonrect_nets: false, max_cells: 4, closed_polygons: false, abs_only_cells: true }) };
+    let m = if src.bool() { gen_abstract_heavy(src) } else { rawlib::gen_rawlib(src, &RawGenOpts { abstracts: false, pico: true, annotations: false, nets_need_label_purpose: true, nonrect_nets: false, max_cells: 4, closed_polygons: false, abs_only_cells: true, shared_purpose_numbers: false }) };
     // only cells without a layout are exported from their abstract
     let keys = m.cells.iter().filter(|c| !c.has_layout).filter_map(|c| c.abs.as_ref()).flat_map(|a| a.ports.iter().map(|p| p.shapes.len())).max().unwrap_or(0);
     let b = rawlib::build(&m);
@@ -115,7 +115,7 @@ fn conv_raw_to_gds(src: &mut Src) -> Result<(String, usize), String> {
     Ok((t, keys))
 }
 fn conv_raw_to_proto(src: &mut Src) -> Result<(String, usize), String> {
-    let m = if src.bool() { gen_abstract_heavy(src) } else { rawlib::gen_rawlib(src, &RawGenOpts { abstracts: true, pico: false, annotations: true, nets_need_label_purpose: false, nonrect_nets: true, max_cells: 4, closed_polygons: false, abs_only_cells: true }) };
+    let m = if src.bool() { gen_abstract_heavy(src) } else { rawlib::gen_rawlib(src, &RawGenOpts { abstracts: true, pico: false, annotations: true, nets_need_label_purpose: false, nonrect_nets: true, max_cells: 4, closed_polygons: false, abs_only_cells: true, shared_purpose_numbers: false }) };
     let keys = m.cells.iter().filter_map(|c| c.abs.as_ref()).map(|a| a.blockages.len().max(a.ports.iter().map(|p| p.shapes.len()).max().unwrap_or(0))).max().unwrap_or(0);
     let b = rawlib::build(&m);
     let t = match b.lib.to_proto() {
